@@ -701,7 +701,7 @@ func TestCheck(t *testing.T) {
 	}
 
 	rng := r.Rand("c08")
-	n := r.N(20000, 1000000)
+	n := r.N(20000, 20000000)
 	for i := 0; i < n; i++ {
 		cs := genCase(rng)
 		r.Case("case %d n=%d pct=%v limit=%d tag=%q", i, len(cs.Values), cs.Percentiles, cs.Limit, cs.HistTag)
